@@ -1,7 +1,7 @@
 (* C02/Proofs2.v — stages: tensors, value-info, attributes of every kind (graph-valued ones relative
    to the round trip of the nested graphs). *)
 From Coq Require Import ZArith NArith List Bool Lia.
-From IRV Require Import Base.Exn Gen.C02Gen C02.Model C02.Model2 C02.Norm C02.Proofs1.
+From IRV Require Import Base.Exn Gen.C02Gen C02.Model C02.Model2 C02.Norm C02.Proofs1 C02.ProofsSort C02.ProofsExt.
 Import ListNotations.
 Open Scope Z_scope.
 
@@ -35,19 +35,16 @@ Proof.
   destruct (dflt 0 loc =? 1) eqn:Eloc.
   - (* external *)
     split_andb H. apply Z.eqb_eq in Eloc.
-    assert (Hf : filter (fun kv : str * str => ext_allowed (fst kv)) ext = ext).
-    { apply filter_all. rewrite forallb_forall in *. intros kv Hin. specialize (H6 _ Hin).
-      unfold ext_allowed. simpl in *. repeat (apply orb_prop in H6; destruct H6 as [H6|H6]); rewrite H6;
-      rewrite ?orb_true_r; reflexivity. }
-    rewrite Hf, (dict_of_nodup ext H).
-    destruct (ext_roundtrip ext H H6 H5 H4) as (off & len & Ho & Hl & Hs).
+    destruct (ext_roundtrip_gen ext H H5 H4) as (off & len & Ho & Hl & Hs). cbv zeta in Ho, Hl, Hs.
     rewrite Ho, Hl. simpl. rewrite H3.
     apply nonempty_false in H2, H0. apply empty_bytes_truthy in H1. subst strs other.
     eexists. split; [reflexivity|].
     assert (Hcore : forall nm, truthy nm = truthy name ->
               norm_tensor (mkTensorP dims (Some (dflt 0 dt)) (truthy nm) (truthy doc) (Some 1) None [] []
-                                     ((k_location, dflt [] (lookup k_location ext))
-                                        :: opt_entry k_offset off ++ opt_entry k_length len)
+                                     ((k_location, dflt [] (lookup k_location
+                                                              (dict_of (filter (fun kv : str * str => ext_allowed (fst kv)) ext))))
+                                        :: opt_entry k_offset off ++ opt_entry k_length len
+                                        ++ filter (fun kv : str * str => negb (ext_interpreted (fst kv))) ext)
                                      (ksort (dict_of meta)))
               = norm_tensor (mkTensorP dims dt name doc loc raw [] [] ext meta)).
     { intros nm Hnm. unfold norm_tensor. tproj. rewrite !truthy_idem, Hnm, Hs, H1, (ksort_dict_of meta Hmeta).
